@@ -163,6 +163,11 @@ impl<I: Interner> Table<I> {
         self.answers.get(index.value)
     }
 
+    #[cfg(chalk_verif)]
+    pub(crate) fn verif_answers(&self) -> &[Answer<I>] {
+        &self.answers
+    }
+
     pub(super) fn next_answer_index(&self) -> AnswerIndex {
         AnswerIndex::from(self.answers.len())
     }
